@@ -47,6 +47,7 @@ def plan(tier, seed):
     specs = [{'kind': 'api', 'seed': seed * 1000 + j, 'count': per} for j in range(n)]
     specs += [{'kind': 'truncations', 'part': i, 'parts': 4, 'seed': seed} for i in range(4)]
     specs += [{'kind': 'corpus', 'part': i, 'parts': 4} for i in range(4)]
+    specs += [{'kind': 'sequence'}]
     specs += [{'kind': 'cli', 'seed': seed * 1000 + 700 + j, 'count': 14 if tier == 'quick' else 50} for j in range(4)]
     specs += [{'kind': 'options', 'part': i, 'parts': 6} for i in range(6)]
     specs += [{'kind': 'encoding', 'part': i, 'parts': 2} for i in range(2)]
@@ -87,7 +88,7 @@ def api_case(res, src, what, outcomes, assemble_it=True):
                 raise ValueError('empty diagnostic')
         except Exception as e2:  # noqa
             runner.fail(res, 'M-EXC', f'{what}: the diagnostic {type(e).__name__}({e}) cannot be rendered: {type(e2).__name__}: {e2}', {'source': src, 'what': what})
-        return
+        return 'rejected: ' + str(e)[:80]
     except Slow:
         res['inconclusive'].append(f'{what}: compile exceeded the 10 s watchdog') if len(res['inconclusive']) < 3 else None
         runner.count(res, 'watchdog')
@@ -115,6 +116,7 @@ def api_case(res, src, what, outcomes, assemble_it=True):
             if 'wrong number of arguments' in str(e) or 'takes no arguments' in str(e):
                 return
             runner.fail(res, 'M-ASM', f'{what}: successful compile but the assembler rejects the output: {e}', {'source': src, 'what': what})
+    return 'compiled'
 
 
 def max_nesting(src):
@@ -304,6 +306,11 @@ UNUSUAL = [
      ('@print("x");', '@println(5);', '@write(1);', '@is_you();', '@all_is_win();', 'print(1, 2);', 'println();', 'is_you();', 'all_is_win(1);', 'all_is_broken("why");',
       'sleep();', 'debug(1);', 'progress("x");', 'write();', 'writeln(1, 2);')]
 
+UNUSUAL += ['empty ping() { write(1); }\nempty pong() { write(2); }\nint one() { return 1; }\nempty @is_you() { %s }\n' % st for st in
+            ('ping() ?? pong();', 'int x = ping() ?? pong();', 'ping() ?? 1;', '1 ?? ping();', 'write(one() ?? 1);', 'write(("a" ?? "a").length);', 'write(([1] ?? [1]).length);',
+             'write(one() ?? true);', "write(one() ?? 'c');", 'bool b = true ?? false; write(b);', "byte c = 'a' ?? 'b'; write(c);", 'ping() ?? ping() ?? ping();',
+             'if (ping() ?? pong()) { write(1); }', 'while (ping() ?? pong()) { }', 'write(not (ping() ?? pong()));', 'int[] q = [ping() ?? pong()];', 'return ping() ?? pong();')]
+
 GOOD = b'empty @is_you() { writeln("ok"); int[] a = [1, 2]; write(a[1]); }\n'
 
 
@@ -373,6 +380,33 @@ def run_shard(spec):
                 continue
             seen.add(src)
             api_case(res, src, 'template corpus', outcomes)
+    elif k == 'sequence':
+        # one process, many compilations: what an earlier compilation declared (user overloads of library names, globals, functions)
+        # must not be visible to a later one - a valid program compiles every time it is compiled, before and after its neighbours,
+        # and a diagnostic about a short program never points into a longer one compiled earlier
+        seqs = []
+        goods = [(t, src) for t, src, ok in T.builtin_cases() if ok]
+        bads = [(t, src) for t, src, ok in T.builtin_cases() if not ok]
+        pad = '// padding\n' * 30
+        for (t, src) in goods:
+            seqs += [(t + ' (padded)', pad + src, True), (t, src, True), (t + ' (again)', src, True)]
+        for j, (t, src) in enumerate(bads):
+            seqs.append((t, src, False))
+            seqs.append(goods[j % len(goods)] + (True,))
+        own = 'int helper(int a) { return a + 1; }\nint g = 4;\nempty @is_you() { write(helper(g)); }\n'
+        seqs += [('own names', pad + own, True), ('own names again', own, True), ('uses names of the previous program', 'empty @is_you() { write(helper(g)); }\n', False),
+                 ('own names, other signature', 'bool helper(int a, int b) { return a > b; }\nstring g = "s";\nempty @is_you() { write(helper(1, 2)); write(g); }\n', True)]
+        for rnd in range(2):
+            for t, src, ok in seqs:
+                out = api_case(res, src, f'compilation history: {t}', outcomes)
+                if out is None:
+                    continue
+                if ok and out != 'compiled':
+                    runner.fail(res, 'M-EXC', f'compilation history: the valid program "{t}" is no longer compiled after the compilations before it: {out}', {'source': src, 'what': 'sequence of compilations in one process'})
+                elif not ok and out == 'compiled':
+                    runner.fail(res, 'M-EXC', f'compilation history: the ill-formed program "{t}" is accepted after the compilations before it', {'source': src, 'what': 'sequence of compilations in one process'})
+                else:
+                    runner.count(res, 'history_verdicts_stable')
     elif k == 'truncations':
         base = corpus(r, spec['seed'], 3)
         for n, src in enumerate(base):
